@@ -36,6 +36,8 @@ mod source;
 mod stack_ops;
 mod utils;
 mod validation;
+#[cfg(pickle_fuzzer_verif)]
+mod verif;
 
 pub use source::{EntropySource, GenerationSource};
 
